@@ -1,5 +1,6 @@
 // C17 harness: the watched name is replaced between scanPaths' stat and the open of the worker the same sync starts
-// (finding F-C17-901). Scanner.sync stats the path (id = inode A), then mergeDescs / syncWorkers create the descriptor
+// (finding F-C17-901, FIXED by /repo 5ccf34b: newWorkerConfig identifies the file again after the parser has opened it and refuses a
+// replaced one; the schedule stays as a regression case, a recurrence is tagged with the id). Scanner.sync stats the path (id = inode A), then mergeDescs / syncWorkers create the descriptor
 // for A and runWorker opens the PATH: if the file was rotated in between, the worker "of A" reads the NEW file (inode
 // B) from offset 0; the next sync finds B as an unknown id and starts a second worker on it, again from 0.
 // Deterministic through the hook scanner.sync.afterScanPaths (parks the sync between the stat and the merge).
@@ -30,7 +31,7 @@ type staleOpenInput struct {
 }
 
 const staleOpenRule = "deterministic parked schedule (hook scanner.sync.afterScanPaths between scanPaths and mergeDescs): the first sync of a scanner has stat'ed app.log (lower-case lines) and is parked; " +
-	"the file is renamed away and a new app.log (upper-case lines) is created; the sync is released; the consumer confirms everything (until the expected bytes have arrived and 1.5 s more, at most 11.5 s). SPEC: every byte of the file under the name is delivered once — the new " +
+	"the file is renamed away and a new app.log (upper-case lines) is created; the sync is released; the consumer confirms everything (until the new file has arrived, then 4 s more — two further syncs — or until a second copy has arrived). SPEC: every byte of the file under the name is delivered once — the new " +
 	"file's lines exactly once, from its first line. Control: the same replacement after the first sync has completed (old lines once, then new lines once). non-trivial = every case"
 
 func runStaleOpen(in staleOpenInput, sec *vh.Section) {
@@ -139,15 +140,17 @@ func runStaleOpen(in staleOpenInput, sec *vh.Section) {
 		}
 	}
 	// two more syncs (1 s apart), the old worker's stop at EOF (up to ~2 s), the new worker's start: normally within 3 s.
-	// Wait (at most 10 s, the machine may be loaded) until everything expected — parked: the new file twice, which is what
-	// the defect produces — has been confirmed, then 1.5 s more for anything that should not come.
+	// Wait (at most 10 s, the machine may be loaded) until the new file has been confirmed once, then watch for anything
+	// that should not come.
 	base := len(confirmed)
-	want := len(wNew)
+	take(10*time.Second, func() bool { return len(confirmed)-base >= len(wNew) })
 	if in.Park {
-		want = 2 * len(wNew)
+		// the defect (before fix 5ccf34b) delivers the new file a second time after the next sync: watch two more syncs,
+		// generously (4 s); leave at once when the second copy is there
+		take(4*time.Second, func() bool { return len(confirmed)-base >= 2*len(wNew) })
+	} else {
+		take(1500*time.Millisecond, func() bool { return false })
 	}
-	take(10*time.Second, func() bool { return len(confirmed)-base >= want })
-	take(1500*time.Millisecond, func() bool { return false })
 	res.Eval(sec, digest(in))
 	res.Dist(sec, fmt.Sprintf("park=%v", in.Park))
 	var lower, upper []byte
@@ -171,7 +174,7 @@ func runStaleOpen(in staleOpenInput, sec *vh.Section) {
 	okOld := in.Park || bytes.Equal(lower, wOld) // parked: the old file left the name before any worker opened it (not judged)
 	if okNew && okOld {
 		if in.Park {
-			res.Note("staleopen: parked schedule reached, the new file was delivered once — F-C17-901 does not reproduce")
+			res.Note("staleopen: parked schedule reached, the new file was delivered once (expected since fix 5ccf34b: the open of the first sync is refused, the next sync starts one worker) — F-C17-901 does not reproduce")
 		}
 		return
 	}
